@@ -6,12 +6,18 @@ import (
 	"strings"
 )
 
+// newNilValue returns a nil value of its own: NilValue is addressable,
+// so a script could write to a shared nil through a pointer to the symbol.
+func newNilValue() reflect.Value {
+	return reflect.New(reflect.TypeOf((*interface{})(nil)).Elem()).Elem()
+}
+
 // define
 
 // Define defines/sets interface value to symbol in current scope.
 func (e *Env) Define(symbol string, value interface{}) error {
 	if value == nil {
-		return e.DefineValue(symbol, NilValue)
+		return e.DefineValue(symbol, newNilValue())
 	}
 	return e.DefineValue(symbol, reflect.ValueOf(value))
 }
@@ -53,7 +59,7 @@ func (e *Env) DefineGlobalValue(symbol string, value reflect.Value) error {
 // Set interface value to the scope where symbol is first found.
 func (e *Env) Set(symbol string, value interface{}) error {
 	if value == nil {
-		return e.SetValue(symbol, NilValue)
+		return e.SetValue(symbol, newNilValue())
 	}
 	return e.SetValue(symbol, reflect.ValueOf(value))
 }
